@@ -203,6 +203,46 @@ def h_group(k0: int, k1: int, k2: int, a: Optional[int], b: Optional[int], c: Op
     return H.ok()
 
 
+def _group_float_body(keys, mask, win):
+    vals = [None if m else w for m, w in zip(mask, [1, 2, 4, 8])]
+    t = Table({'k': list(keys), 'v': vals})
+    f = t.window if win else t.aggregate
+    out = f(over='k', mean_over='v', stdev_over='v', sum_over='v', count_over='v')
+    rows = H.rows_of(out)
+    seen = []
+    for i, k in enumerate(keys):
+        if win:
+            row = rows[i]
+        else:
+            if k in seen: continue
+            seen.append(k); row = rows[len(seen) - 1]
+        clean = [vals[j] for j in range(4) if keys[j] == k and vals[j] is not None]
+        mean = (sum(clean) / len(clean)) if clean else None
+        if len(clean) >= 2:
+            sd = (sum((e - mean) ** 2 for e in clean) / (len(clean) - 1)) ** 0.5
+        else:
+            sd = None
+        # emission order: key, sum, mean, count, stdev
+        want = (k, sum(clean), mean, len(clean), sd)
+        for g, w_ in zip(row, want):
+            ok = (g is None and w_ is None) or (g is not None and w_ is not None and math.isclose(g, w_, rel_tol=1e-12, abs_tol=1e-15))
+            if not ok: return H.fail('%s of keys %r values %r: row %r, None-skipping textbook gives %r' % ('window' if win else 'aggregate', keys, vals, row, want))
+    return True
+
+
+def h_group_float(k0: int, k1: int, k2: int, k3: int, m0: bool, m1: bool, m2: bool, m3: bool) -> bool:
+    """
+    pre: H.rgs_ok([k0, k1, k2, k3])
+    post: _
+    """
+    H.reset()
+    if H.skip(locals()): return True
+    keys = [H.among([0, 1, 2, 3], k) for k in (k0, k1, k2, k3)]
+    mask = [True if m else False for m in (m0, m1, m2, m3)]
+    if not H.concrete(_group_float_body, keys, mask, H.cfg('win')): return False
+    return H.ok()
+
+
 # ------------------------------------------------------------------ isna / dropna / fillna
 TYPED = {
     'int': [5, -1, 0], 'float': [2.5, float('nan'), -0.0], 'str': ['a', '', 'None'], 'bool': [True, False, True],
@@ -316,6 +356,10 @@ def obligations(tier):
         obs.append(dict(name='group[%s]' % ('window' if win else 'aggregate'), fn='h_group', config={'win': win}, budget=120 if q else 400,
                         bounds='3 rows, every key equality pattern, Optional[int] values unbounded: sum/min/max/count skip None per group',
                         smoke=[[0, 1, 0, None, 2, 3]]))
+    for win in (False, True):
+        obs.append(dict(name='group-mean-stdev[%s]' % ('window' if win else 'aggregate'), fn='h_group_float', config={'win': win}, budget=90,
+                        bounds='4 rows, every key equality pattern x every None mask over concrete witnesses: per-group mean / stdev / sum / count skip None (isclose 1e-12)',
+                        smoke=[[0, 0, 1, 0, False, True, False, False]]))
     for kind in TYPED:
         obs.append(dict(name='na-triple[%s]' % kind, fn='h_na', config={'kind': kind}, budget=60,
                         bounds='0..3 elements of kind %s with every None mask; fill values %r' % (kind, FILL[kind]), smoke=[[False, True, False, 3, 0, True]]))
